@@ -12,7 +12,6 @@ def setup(c):
 
 PROP = dict(
     id="C11",
-    disabled=True,
     engines=['c11'],
     go_tags=['c11'],
     gen_files={},
